@@ -253,3 +253,46 @@ impl RecvHandler {
             .unwrap_or_else(|e| warn!(error = %e,"Could not send packet to handler"));
     }
 }
+
+#[cfg(feature = "verif-hooks")]
+impl RecvHandler {
+    #[allow(clippy::too_many_arguments)]
+    pub(crate) fn new_virtual(
+        recv: Arc<UdpSocket>,
+        filter_config: FilterConfig,
+        ban_duration: Option<Duration>,
+        node_id: enr::NodeId,
+        protocol_identity: ProtocolIdentity,
+        expected_responses: Arc<RwLock<HashMap<SocketAddr, usize>>>,
+        handler: mpsc::Sender<RecvPacket>,
+        exit: oneshot::Receiver<()>,
+    ) -> Self {
+        RecvHandler {
+            recv,
+            second_recv: None,
+            expected_responses,
+            filter: Filter::new(filter_config, ban_duration),
+            node_id,
+            protocol_identity,
+            handler,
+            exit,
+        }
+    }
+
+    /// Feeds one datagram through the real inbound path.
+    pub(crate) async fn verif_inject(&mut self, src: SocketAddr, bytes: &[u8]) {
+        let mut buffer = [0; MAX_PACKET_SIZE];
+        // The OS truncates datagrams to the receive buffer.
+        let length = bytes.len().min(MAX_PACKET_SIZE);
+        buffer[..length].copy_from_slice(&bytes[..length]);
+        self.handle_inbound(src, length, &buffer).await;
+    }
+
+    pub(crate) fn verif_prune(&mut self) {
+        self.filter.prune_limiter();
+    }
+
+    pub(crate) fn verif_handler_closed(&self) -> bool {
+        self.handler.is_closed()
+    }
+}
